@@ -19,6 +19,8 @@
 (*                               function-array layer refuses as well)     *)
 (*   TypeErr(w) dt = "TYPEERR" : NumPy has no loop for these element kinds *)
 (*                               (nothing is demanded of the code)         *)
+(*   NoDemand(w) dt = "NODEMAND": NumPy returns something by accident of   *)
+(*                               its implementation (nothing is demanded)  *)
 (* Only the element KIND is modelled (bool < int < real < complex), never  *)
 (* the bit width.                                                          *)
 (***************************************************************************)
@@ -68,6 +70,8 @@ Kinds == {"b", "i", "f", "c"}
 \* ------------------------------------------------------------------ verdicts and arrays
 Rej(why) == [sh |-> <<>>, dt |-> "REJECT", v |-> <<why>>]
 TypeErr(why) == [sh |-> <<>>, dt |-> "TYPEERR", v |-> <<why>>]
+\* NumPy's behaviour is an implementation accident or a legacy form that no array library need reproduce: nothing is demanded
+NoDemand(why) == [sh |-> <<>>, dt |-> "NODEMAND", v |-> <<why>>]
 IsRej(a) == a.dt = "REJECT"
 IsTypeErr(a) == a.dt = "TYPEERR"
 IsVal(a) == a.dt \in Kinds
@@ -143,7 +147,8 @@ ArithOps == {"add", "subtract", "multiply", "true_divide", "floor_divide", "mod"
 CmpOps == {"greater", "less", "equal", "not_equal", "greater_equal", "less_equal"}
 LogicOps == {"logical_and", "logical_or", "logical_xor"}
 BitOps == {"bitwise_and", "bitwise_or"}
-BinaryOps == ArithOps \cup CmpOps \cup LogicOps \cup BitOps
+FloatBinOps == {"hypot", "arctan2"}              \* real kinds only, result kind at least "f"
+BinaryOps == ArithOps \cup CmpOps \cup LogicOps \cup BitOps \cup FloatBinOps
 
 \* result kind of a binary ufunc ("X" = no loop for these kinds).  Promotion lattice b<i<f<c with the
 \* per-function minimum.  WrongPower is the switch of the spec MUTANT (power of bools stays bool).
@@ -157,6 +162,13 @@ BinKind(op, k1, k2) ==
       [] op = "power" -> KMax(m, "i")
       [] op \in CmpOps \cup LogicOps -> "b"
       [] op \in BitOps -> IF m \in {"f", "c"} THEN "X" ELSE m
+      [] op \in FloatBinOps -> IF m = "c" THEN "X" ELSE "f"
+
+\* hypot is exact when x^2 + y^2 is the square of a rational; arctan2 only at (0, positive): everything else is "undefined"
+\* in this rational model (the harness then falls back on the installed numpy for the value, see c07.py)
+SHypot(x, y) == IF CIsBad(x) \/ CIsBad(y) THEN CBad
+                ELSE LET n == RAdd(RMul(x[1], x[1]), RMul(y[1], y[1])) IN IF IsBad(n) \/ ~HasRSqrt(n) THEN CBad ELSE CReal(RSqrt(n))
+SArctan2(x, y) == IF CIsBad(x) \/ CIsBad(y) THEN CBad ELSE IF x[1][1] = 0 /\ y[1][1] > 0 THEN CZero ELSE CBad
 
 NBinary(op, a, b) ==
     LET k == BinKind(op, a.dt, b.dt) IN
@@ -176,10 +188,14 @@ NBinary(op, a, b) ==
            [] op = "logical_xor" -> NMap2(a, b, k, SXor)
            [] op \in BitOps -> IF k = "b" THEN NMap2(a, b, k, LAMBDA x, y : IF op = "bitwise_and" THEN SAnd(x, y) ELSE SOr(x, y))
                                ELSE NMap2(a, b, k, LAMBDA x, y : SBit(op, x, y))
+           [] op = "hypot" -> NMap2(a, b, k, SHypot)
+           [] op = "arctan2" -> NMap2(a, b, k, SArctan2)
 
 \* ------------------------------------------------------------------ elementwise unary functions
+\* transcendental functions: shape and kind rule are modelled; the VALUE only at the few rational points where it is rational
+TransOps == {"sin", "cos", "tan", "arcsin", "arccos", "arctan", "sinh", "cosh", "tanh", "arctanh", "exp", "log", "log2", "log10", "sinc"}
 UnaryOps == {"negative", "positive", "absolute", "sign", "reciprocal", "square", "sqrt", "conjugate", "real", "imag",
-             "logical_not", "invert"}
+             "logical_not", "invert"} \cup TransOps
 UnKind(op, k) ==
     CASE op \in {"negative", "positive", "sign"} -> IF k = "b" THEN "X" ELSE k
       [] op = "absolute" -> IF k = "c" THEN "f" ELSE k
@@ -188,6 +204,17 @@ UnKind(op, k) ==
       [] op \in {"real", "imag"} -> IF k = "c" THEN "f" ELSE k
       [] op = "logical_not" -> "b"
       [] op = "invert" -> IF k \in {"f", "c"} THEN "X" ELSE k
+      [] op \in TransOps -> KMax(k, "f")
+STrans(op, x) ==
+    IF CIsBad(x) \/ x[2] # RZero THEN CBad
+    ELSE LET r == x[1] IN
+         CASE op \in {"sin", "tan", "arcsin", "arctan", "sinh", "tanh", "arctanh"} -> IF r = RZero THEN CZero ELSE CBad
+           [] op \in {"cos", "cosh", "exp"} -> IF r = RZero THEN COne ELSE CBad
+           [] op = "arccos" -> IF r = ROne THEN CZero ELSE CBad
+           [] op = "log" -> IF r = ROne THEN CZero ELSE CBad
+           [] op = "log2" -> IF r = ROne THEN CZero ELSE IF r = RInt(2) THEN COne ELSE IF r = RInt(4) THEN CInt(2) ELSE IF r = Norm(1, 2) THEN CInt(-1) ELSE CBad
+           [] op = "log10" -> IF r = ROne THEN CZero ELSE IF r = RInt(10) THEN COne ELSE CBad
+           [] op = "sinc" -> IF r = RZero THEN COne ELSE IF r[2] = 1 THEN CZero ELSE CBad
 SSign(x) == IF CIsBad(x) THEN CBad
             ELSE IF x[2] = RZero THEN CInt(RSgn(x[1]))
             ELSE LET m == CAbsR(x) IN IF IsBad(m) THEN CBad ELSE CMk(RDiv(x[1], m), RDiv(x[2], m))
@@ -210,6 +237,7 @@ NUnary(op, a) ==
            [] op = "imag" -> NMap1(a, k, LAMBDA x : CReal(x[2]))
            [] op = "logical_not" -> NMap1(a, k, SNot)
            [] op = "invert" -> IF k = "b" THEN NMap1(a, k, SNot) ELSE NMap1(a, k, LAMBDA x : CSub(CNeg(x), COne))
+           [] op \in TransOps -> NMap1(a, k, LAMBDA x : STrans(op, x))
 
 \* ------------------------------------------------------------------ axes
 NormAxis(ax, n) == IF ax < 0 THEN ax + n ELSE ax
@@ -254,8 +282,13 @@ NRavel(a) == [sh |-> <<NSize(a)>>, dt |-> a.dt, v |-> a.v]
 
 \* ------------------------------------------------------------------ reductions
 \* axes: spec = [mode |-> "none" | "int" | "tuple", ax |-> sequence of integers, kd |-> 0 | 1]
-RedAxes(spec, n) == IF spec.mode = "none" THEN [i \in 1..n |-> i - 1] ELSE [i \in 1..Len(spec.ax) |-> NormAxis(spec.ax[i], n)]
-RedAxesOk(spec, n) == spec.mode = "none" \/ ((\A i \in 1..Len(spec.ax) : AxisOk(spec.ax[i], n))
+\* NumPy accepts the INTEGER axis 0 or -1 for a 0-d operand (nothing is reduced); a tuple naming an axis is refused
+ZeroDimAxis(spec, n) == n = 0 /\ spec.mode = "int" /\ spec.ax[1] \in {0, -1}
+RedAxes(spec, n) == IF spec.mode = "none" THEN [i \in 1..n |-> i - 1]
+                    ELSE IF ZeroDimAxis(spec, n) THEN <<>>
+                    ELSE [i \in 1..Len(spec.ax) |-> NormAxis(spec.ax[i], n)]
+RedAxesOk(spec, n) == spec.mode = "none" \/ ZeroDimAxis(spec, n)
+                      \/ ((\A i \in 1..Len(spec.ax) : AxisOk(spec.ax[i], n))
                           /\ \A i, j \in 1..Len(spec.ax) : i # j => NormAxis(spec.ax[i], n) # NormAxis(spec.ax[j], n))
 InSeq(x, s) == \E i \in 1..Len(s) : s[i] = x
 RECURSIVE KeepSeq(_, _, _)
@@ -386,12 +419,18 @@ NGetItem(a, items) ==
 \* numpy.take(a, indices, axis) (mode 'raise'); ind is an integer array; c = 1: literal indices
 NTake(a, ind, axisgiven, axis, c) ==
     IF ind.dt \notin {"i", "b"} THEN TypeErr("take:index-kind")
-    ELSE LET src == IF axisgiven = 0 THEN NRavel(a) ELSE a
+    \* a 0-d operand is treated as a 1-d array of length 1 (NumPy)
+    ELSE LET src == IF axisgiven = 0 THEN NRavel(a) ELSE IF NRank(a) = 0 THEN [a EXCEPT !.sh = <<1>>] ELSE a
              n == NRank(src)
          IN IF axisgiven = 1 /\ ~AxisOk(axis, n) THEN Rej("take:axis")
             ELSE LET ax == IF axisgiven = 0 THEN 0 ELSE NormAxis(axis, n)
-                     items == [i \in 1..ax |-> ItFull] \o << [k |-> "arr", a |-> [j \in 1..Len(ind.v) |-> NIdx(ind.v[j])], sh |-> ind.sh, c |-> c] >>
-                 IN IF n = 0 THEN Rej("take:axis") ELSE NGetItem(src, items)
+                     \* numpy.take checks the bounds while it copies: when nothing is copied (an axis BEFORE the indexed
+                     \* one has length 0) and the indexed axis is not itself empty, out-of-range literals are not refused
+                     nocheck == Prod(SubSeq(src.sh, 1, ax)) = 0 /\ src.sh[ax + 1] > 0
+                     items == [i \in 1..ax |-> ItFull] \o << [k |-> "arr", a |-> [j \in 1..Len(ind.v) |-> NIdx(ind.v[j])], sh |-> ind.sh,
+                                                               c |-> IF nocheck THEN 0 ELSE c] >>
+                     oob == \E j \in 1..Len(ind.v) : NIdx(ind.v[j]) < -src.sh[ax + 1] \/ NIdx(ind.v[j]) >= src.sh[ax + 1]
+                 IN IF nocheck /\ c = 1 /\ oob THEN NoDemand("take:unchecked-out-of-bounds") ELSE NGetItem(src, items)
 \* numpy.choose(a, choices): a and all choices broadcast together; a selects the choice
 NChoose(a, choices) ==
     LET n == Len(choices)
@@ -409,7 +448,7 @@ NCompress(cond, a, axisgiven, axis) ==
     NTake(a, [sh |-> <<Len(nz)>>, dt |-> "i", v |-> [j \in 1..Len(nz) |-> CInt(nz[j])]], axisgiven, axis, 1)
 \* numpy.repeat(a, n, axis) with scalar n
 NRepeat(a, n, axisgiven, axis) ==
-    LET src == IF axisgiven = 0 THEN NRavel(a) ELSE a
+    LET src == IF axisgiven = 0 THEN NRavel(a) ELSE IF NRank(a) = 0 THEN [a EXCEPT !.sh = <<1>>] ELSE a    \* 0-d: as 1-d of length 1
         r == NRank(src)
     IN IF r = 0 \/ (axisgiven = 1 /\ ~AxisOk(axis, r)) THEN Rej("repeat:axis")
        ELSE LET ax == IF axisgiven = 0 THEN 0 ELSE NormAxis(axis, r) IN
@@ -512,8 +551,10 @@ NEinsum(ins, out0, implicit, ops) ==
        ELSE IF \E i \in 1..Len(out) : out[i] \notin Labels(ins) THEN Rej("einsum:output-label")
        ELSE IF \E i, j \in 1..Len(out) : i # j /\ out[i] = out[j] THEN Rej("einsum:output-repeat")
        ELSE LET dimset(l) == {ops[o].sh[j] : <<o, j>> \in {oj \in (1..Len(ins)) \X (1..4) : oj[2] <= Len(ins[oj[1]]) /\ ins[oj[1]][oj[2]] = l}}
-            IN IF \E l \in Labels(ins) : Cardinality(dimset(l) \ {1}) > 1 \/ (1 \in dimset(l) /\ Cardinality(dimset(l)) > 1) THEN Rej("einsum:shape")
-               ELSE LET dim(l) == CHOOSE d \in dimset(l) : TRUE
+                \* a label repeated WITHIN one operand needs equal lengths; BETWEEN operands a length-1 axis is broadcast
+                within == \E o \in 1..Len(ins) : \E j1, j2 \in 1..Len(ins[o]) : ins[o][j1] = ins[o][j2] /\ ops[o].sh[j1] # ops[o].sh[j2]
+            IN IF within \/ \E l \in Labels(ins) : Cardinality(dimset(l) \ {1}) > 1 THEN Rej("einsum:shape")
+               ELSE LET dim(l) == CHOOSE d \in dimset(l) : \A e \in dimset(l) : e <= d
                         summed == SortSet(Labels(ins) \ {out[i] : i \in 1..Len(out)})
                         ssh == [j \in 1..Len(summed) |-> dim(summed[j])]
                         sidx == AllIdx(ssh)
@@ -522,10 +563,12 @@ NEinsum(ins, out0, implicit, ops) ==
                     IN NArr([i \in 1..Len(out) |-> dim(out[i])], k, LAMBDA oidx :
                          FoldSeq(LAMBDA acc, t : SAddK(k, acc, t), CZero,
                                  [m \in 1..Len(sidx) |->
-                                    FoldSeq(LAMBDA acc, t : SMulK(k, acc, t), COne, [o \in 1..Len(ops) |-> NAt(ops[o], [j \in 1..Len(ins[o]) |-> val(ins[o][j], oidx, sidx[m])])], 1)], 1))
+                                    FoldSeq(LAMBDA acc, t : SMulK(k, acc, t), COne, [o \in 1..Len(ops) |-> NAt(ops[o], [j \in 1..Len(ins[o]) |-> IF ops[o].sh[j] = 1 THEN 0 ELSE val(ins[o][j], oidx, sidx[m])])], 1)], 1))
 \* numpy.cross on the last axes (3-vectors only in NumPy 2)
 NCross(a, b) ==
     IF NRank(a) = 0 \/ NRank(b) = 0 THEN Rej("cross:ndim")
+    \* 2-vectors: accepted by NumPy 1.x, refused by NumPy 2.x -- nothing is demanded of the code
+    ELSE IF SLast(a.sh) = 2 /\ SLast(b.sh) = 2 THEN TypeErr("cross:2-vectors")
     ELSE IF SLast(a.sh) # 3 \/ SLast(b.sh) # 3 THEN Rej("cross:dimension")
     ELSE LET bat == BShape(SFront(a.sh), SFront(b.sh))
              k == KMax(a.dt, b.dt)
@@ -575,15 +618,15 @@ NInv(a) ==
 NNorm(a, axisgiven, axis) ==
     LET sq == NMap1(a, "f", LAMBDA x : CReal(CNorm2(x)))
         s == NReduce("sum", sq, IF axisgiven = 0 THEN [mode |-> "none", ax |-> <<>>, kd |-> 0] ELSE [mode |-> "int", ax |-> <<axis>>, kd |-> 0])
-    IN IF ~IsVal(s) THEN Rej("norm:axis") ELSE NMap1(s, "f", SSqrt)
+    IN IF ~IsVal(s) \/ (axisgiven = 1 /\ ~AxisOk(axis, NRank(a))) THEN Rej("norm:axis") ELSE NMap1(s, "f", SSqrt)
 
 \* ------------------------------------------------------------------ searchsorted / interp
 \* numpy.searchsorted(a, v, side): a sorted 1-D; number of entries < v (left) or <= v (right)
 NSearchsorted(a, v, right) ==
     IF NRank(a) # 1 THEN Rej("searchsorted:ndim")
-    ELSE IF a.dt = "c" \/ v.dt = "c" THEN TypeErr("searchsorted:complex")
-    ELSE NMap1(v, "i", LAMBDA x : IF CIsBad(x) \/ NAnyBad(a) THEN CBad
-                                  ELSE CInt(Cardinality({j \in 1..Len(a.v) : IF right = 1 THEN ~RLt(x[1], a.v[j][1]) ELSE RLt(a.v[j][1], x[1])})))
+    \* NumPy does not check that `a` is sorted: the result for unsorted data is undefined; complex kinds use the lexicographic order
+    ELSE NMap1(v, "i", LAMBDA x : IF CIsBad(x) \/ NAnyBad(a) \/ (\E j \in 1..(Len(a.v) - 1) : CLt(a.v[j + 1], a.v[j])) THEN CBad
+                                  ELSE CInt(Cardinality({j \in 1..Len(a.v) : IF right = 1 THEN ~CLt(x, a.v[j]) ELSE CLt(a.v[j], x)})))
 \* numpy.interp(x, xp, fp): xp increasing 1-D, piecewise linear, constant extrapolation
 NInterp(x, xp, fp) ==
     IF NRank(xp) # 1 \/ NRank(fp) # 1 THEN Rej("interp:ndim")
@@ -594,7 +637,8 @@ NInterp(x, xp, fp) ==
              X(j) == xp.v[j][1]
              F(j) == fp.v[j][1]
          IN NMap1(x, "f", LAMBDA s :
-              IF CIsBad(s) \/ NAnyBad(xp) \/ NAnyBad(fp) THEN CBad
+              \* xp must be increasing (NumPy does not check; the result is undefined otherwise)
+              IF CIsBad(s) \/ NAnyBad(xp) \/ NAnyBad(fp) \/ (\E q \in 1..(n - 1) : ~RLt(X(q), X(q + 1))) THEN CBad
               ELSE LET t == s[1] IN
                    IF ~RLt(X(1), t) THEN CReal(F(1))
                    ELSE IF ~RLt(t, X(n)) THEN CReal(F(n))
